@@ -635,3 +635,33 @@ def rule_merge_collapses_holders(ctx):
                       f"after `{src_of(renames[0])[:40]}` only the diagonal tensor is collapsed: another tensor that held both merged indices keeps the surviving one twice, "
                       "and pair_simplify / antidiag_gauge / split_simplify then produce a wrong network", where=where, operand="holders"))
     return r
+
+
+def rule_flag_setter_total(ctx):
+    r = RuleResult(
+        "flag-setter-total",
+        "every invalidation of the isometry flag ends in Tensor._set_left_inds(None) (through modify / the property setter): the setter "
+        "assigns self._left_inds on every path — a branch that leaves the attribute alone keeps a stale claim alive",
+    )
+    cls = ctx.prog.cls("quimb.tensor.tensor_core", "Tensor")
+    f = cls.methods.get("_set_left_inds")
+    if f is None:
+        raise AnalysisError("flag-setter-total: Tensor._set_left_inds not found")
+
+    def assigns(stmts):
+        """True when every path through stmts assigns self._left_inds"""
+        for st in stmts:
+            if isinstance(st, ast.Assign) and any(isinstance(t, ast.Attribute) and t.attr == "_left_inds" for t in st.targets):
+                return True
+            if isinstance(st, ast.If) and st.orelse and assigns(st.body) and assigns(st.orelse):
+                return True
+            if isinstance(st, (ast.Return, ast.Raise)):
+                return isinstance(st, ast.Raise)
+        return False
+
+    if assigns(f.node.body):
+        r.ok("Tensor._set_left_inds", sample={"setter": "assigns self._left_inds on every path"})
+    else:
+        r.bad(Finding("flag-setter-total", "Tensor._set_left_inds", "a path through the setter does not assign self._left_inds: modify(left_inds=None) / a data write can no longer clear the flag",
+                      where=f"{f.module.relpath}:{f.lineno}", operand="path"))
+    return r
